@@ -490,8 +490,126 @@ func c16DotDot(dotu bool) Scenario {
 // c16Deeper: additional elements of the enumerated element lists in the thorough tier
 var c16Deeper int
 
+// c16SmallMsize: walks on a connection whose message size is so small that a reply for
+// as many qids as names were asked for would not fit, though the reply that is due (one
+// qid per element that exists) does.
+func c16SmallMsize(msize uint32, dotu bool) Scenario {
+	name := fmt.Sprintf("partial and full walks at msize=%d dotu=%v", msize, dotu)
+	return Scenario{Name: name, Run: func(rc *RunCtx) *Result {
+		res := &Result{Exhaustive: true}
+		base, root := scratchDir("c16s")
+		defer os.RemoveAll(base)
+		chain := []string{"a", "b", "c", "d", "e", "f", "g", "h"}
+		os.MkdirAll(filepath.Join(root, filepath.Join(chain...)), 0o755)
+		seen := map[string]bool{}
+		fail := func(sig, msg string) {
+			if !seen[sig] && len(res.Findings) < 10 {
+				seen[sig] = true
+				res.Findings = append(res.Findings, Finding{Sig: "C16/small-msize/" + sig, Msg: msg + fmt.Sprintf(" (msize %d, dotu %v)", msize, dotu)})
+			}
+		}
+		body := func() {
+			h := newUfsH(root, msize, dotu)
+			cl := h.Connect()
+			ver := "9P2000"
+			if dotu {
+				ver = "9P2000.u"
+			}
+			cl.Version(msize, ver)
+			cl.Rpc(tattach(1, 0, wire.NOFID, "", uint32(os.Geteuid()), dotu))
+			for e := 0; e <= len(chain); e++ {
+				for k := 0; e+k <= 16; k++ {
+					if e+k == 0 || 9+13*e > int(msize) {
+						continue
+					}
+					names := append([]string{}, chain[:e]...)
+					for j := 0; j < k; j++ {
+						names = append(names, "m")
+					}
+					if len(wire.Encode(twalk(4, 0, 5, names...), dotu)) > int(msize) {
+						continue
+					}
+					for _, inplace := range []bool{false, true} {
+						res.Evals++
+						src, dst := uint32(0), uint32(5)
+						if inplace {
+							cl.Rpc(twalk(4, 0, 6))
+							src, dst = 6, 6
+						}
+						r := cl.Rpc(twalk(4, src, dst, names...))
+						switch {
+						case r == nil:
+							fail("no-reply", fmt.Sprintf("no reply to Twalk %v", names))
+						case e == 0:
+							if r.Type != wire.Rerror {
+								fail("first-missing-not-error", fmt.Sprintf("Twalk %v whose first element is missing answered by %s", names, r))
+							}
+						case r.Type != wire.Rwalk || len(r.Wqid) != e:
+							fail("walk-qid-count", fmt.Sprintf("Twalk %v (in place %v): %d leading elements exist and an Rwalk for them is %d bytes, reply %s", names, inplace, e, 9+13*e, r))
+						default:
+							for i, q := range r.Wqid {
+								fi, err := os.Lstat(filepath.Join(root, filepath.Join(chain[:i+1]...)))
+								if err == nil && q.Path != fi.Sys().(*syscall.Stat_t).Ino {
+									fail("walk-qid-mismatch", fmt.Sprintf("Twalk %v: qid %d does not match lstat", names, i))
+								}
+							}
+						}
+						// where the fids are afterwards
+						if r != nil && e > 0 {
+							sd := cl.Rpc(&wire.Msg{Type: wire.Twalk, Tag: 9, Fid: dst, Newfid: 7})
+							full := k == 0 && r.Type == wire.Rwalk
+							switch {
+							case full && !inplace, inplace:
+								if sd == nil || sd.Type != wire.Rwalk {
+									fail("fid-lost", fmt.Sprintf("after Twalk %v (in place %v) the fid answers %v", names, inplace, sd))
+								} else {
+									// it designates the target after a full walk, the start otherwise
+									up := cl.Rpc(twalk(9, 7, 7, ".."))
+									wantIno := uint64(0)
+									where := root
+									if full {
+										where = filepath.Join(root, filepath.Join(chain[:e]...))
+									}
+									if fi, err := os.Lstat(filepath.Dir(where)); err == nil && where != root {
+										wantIno = fi.Sys().(*syscall.Stat_t).Ino
+									} else if fi, err := os.Lstat(root); err == nil {
+										wantIno = fi.Sys().(*syscall.Stat_t).Ino
+									}
+									if up == nil || up.Type != wire.Rwalk || len(up.Wqid) != 1 || up.Wqid[0].Path != wantIno {
+										fail("fid-elsewhere", fmt.Sprintf("after Twalk %v (in place %v, reply %s) the fid does not designate %s: its '..' answers %v", names, inplace, r, where, up))
+									}
+									cl.Rpc(&wire.Msg{Type: wire.Tclunk, Tag: 9, Fid: 7})
+								}
+							default:
+								if sd == nil || sd.Type != wire.Rerror {
+									fail("newfid-exists-after-partial-walk", fmt.Sprintf("after the partial Twalk %v the new fid answers %v", names, sd))
+									cl.Rpc(&wire.Msg{Type: wire.Tclunk, Tag: 9, Fid: 7})
+								}
+							}
+						}
+						cl.Rpc(&wire.Msg{Type: wire.Tclunk, Tag: 4, Fid: dst})
+					}
+				}
+			}
+		}
+		x := vs.Run(nil, body, vs.Options{Horizon: 500000000})
+		res.States++
+		res.Traces++
+		res.Nontrivial = res.Evals
+		if len(x.Panics) > 0 {
+			fail("panic", "panic: "+x.Panics[0].Value)
+		} else if len(x.Fails) > 0 {
+			fail("harness", x.Fails[0])
+		}
+		return res
+	}}
+}
+
 func c16Scenarios(tier string) []Scenario {
 	var out []Scenario
+	for i, ms := range []uint32{64, 100, 128, 216, 256} {
+		out = append(out, c16SmallMsize(ms, i%2 == 0))
+	}
 	c16Deeper = 0
 	if tier == "thorough" {
 		c16Deeper = 1
